@@ -10,7 +10,7 @@ ADDENDA = {
     "C07": " tcpmux_group_credentials: credential-protected tcpmux groups; http_routes also draws the '/' location and empty request paths.",
     "C08": " gated_handoff_vs_reregistration: a visitor stream is held between 'request checked' and the hand-off while the proxy is closed and its name registered again (other key / other allow-list, same or other session); it must never be bridged to the new registration. A wrong-signature NAT-hole / visitor request must be answered with an error within the bound (the harness's own table snapshot is bounded, so a wedged server is reported, not waited for).",
     "C09": " server_histories also drops a session while one of its registrations is in flight. manager_model: a quarter of the acquisitions are bound by their owner only after the next operation (the port manager grants, the proxy listens later: two registrations in flight at once).",
-    "C10": " Also server-chosen (-any) port kinds and joins by a wrong-key intruder; the bystander also owns an http and a tcpmux route for user bob on the very domains the session under test uses (kept apart by routeByHTTPUser only) and is probed after every cycle. same_session_churn: ONE long-lived session registers, uses (0..3 exchanges per proxy, http users with or without keep-alive, stcp/sudp visitors) and closes 1..4 of 13 proxy kinds for 2..12 cycles (what a reload does); after every CloseProxy the work connections started for the closed proxies must be closed by the server within 4 s, the identical registration right after the close request must succeed, the tables must be back at the state before the cycle, two proxies of the same session that are never closed (a tcp tunnel with one user connection held open over all cycles, an http route used over one keep-alive connection) must keep working, and 12 identical cycles must not grow goroutines / descriptors; in half of the cases users of the udp kinds keep sending datagrams while the proxy is closed (frps must survive).",
+    "C10": " Also server-chosen (-any) port kinds and joins by a wrong-key intruder; the bystander also owns an http and a tcpmux route for user bob on the very domains the session under test uses (kept apart by routeByHTTPUser only) and is probed after every cycle. same_session_churn: ONE long-lived session registers, uses (0..3 exchanges per proxy, http users with or without keep-alive, stcp/sudp visitors) and closes 1..4 of 13 proxy kinds for 2..12 cycles (what a reload does); after every CloseProxy the work connections started for the closed proxies must be closed by the server within 4 s, the identical registration right after the close request must succeed, the tables must be back at the state before the cycle, two proxies of the same session that are never closed (a tcp tunnel with one user connection held open over all cycles, an http route used over one keep-alive connection) must keep working, and 12 identical cycles must not grow goroutines / descriptors; in half of the cases users of the udp kinds keep sending datagrams while the proxy is closed (frps must survive). listen_fails_after_acquire: deterministic probes (gate between port acquisition and listen, tcp and udp, maxPortsPerClient = 1): another process binds the port in that window, the registration must be refused, the tables must return to the state before, and the identical registration must succeed once the port is free.",
     "C12": " Also a session drop with a registration in flight (regdrop), two sessions asking for the same name at the same moment (race: at most one is granted, a free name is granted to one of them), and sessions holding 10 / 40 / 120 further names (bulk) so that the teardown a re-login waits for takes a while; every name is re-registered right after the re-login is acknowledged. slow_teardown_relogin: the old session owns 1..3 live proxies and is in the middle of a registration that a NewProxy server plugin holds for 0.3 .. 3.5 s (userConnTimeout 1..2 s) when the client logs in again with its run id: once the login is acknowledged every earlier name must be registrable at once, the half-done registration must not outlive the old session, and the tunnels answer from the new session.",
     "C13": " Odd-numbered http / tcpmux groups spell their domain with upper-case letters.",
     "C14": " server_watchdog draws timeouts of 2 / 3 / 5 / 6 s with 0..8 heartbeats before the silence (every phase of the server's checking rhythm). backoff_bound: the delay sequence of the login loop for generated option sets (incl. the production ones) and up to 40 attempts: never above the maximum, never zero after a failure, grown by the factor in between. client_watchdog_backoff also checks run-id continuity (every re-login presents the run id the server last gave). healing faults: refuse, cut, black hole, dark (half-open) relay, reload during the outage, default loginFailExit, 120+ proxies.",
